@@ -1,0 +1,320 @@
+//go:build verif
+
+package kafka
+
+// Add-only export file for the verification harness in /verif (properties
+// C11/C17: a Conn after broker-reported errors / truncated responses).
+// Nothing here is compiled into normal builds.
+
+import (
+	"encoding/hex"
+	"errors"
+	"fmt"
+	"strings"
+	"time"
+)
+
+// VerifC11ErrShortRead exposes errShortRead.
+var VerifC11ErrShortRead = errShortRead
+
+// VerifC11LoadVersions calls (*Conn).loadVersions: one ApiVersions v0 exchange
+// whose result pins what negotiateVersion picks afterwards.
+func VerifC11LoadVersions(c *Conn) error {
+	_, err := c.loadVersions()
+	return err
+}
+
+// VerifC11Classify names the class of an error; the harness installs its own
+// classifier so that the read error of a fetchdrain is named like every other
+// error of a case line.
+var VerifC11Classify = func(err error) string { return "other:" + strings.ReplaceAll(err.Error(), " ", "_") }
+
+// signed hex, "-" prefix (same as kverif/kvfmt.I)
+func c11I(v int64) string {
+	if v < 0 {
+		return fmt.Sprintf("-%x", uint64(-(v+1))+1)
+	}
+	return fmt.Sprintf("%x", v)
+}
+
+// hex pairs, "." when empty
+func c11S(s string) string {
+	if len(s) == 0 {
+		return "."
+	}
+	return hex.EncodeToString([]byte(s))
+}
+
+func c11B(b []byte) string {
+	if len(b) == 0 {
+		return "."
+	}
+	return hex.EncodeToString(b)
+}
+
+func c11L(n int, f func(i int) string) string {
+	s := make([]string, n)
+	for i := range s {
+		s[i] = f(i)
+	}
+	return "[" + strings.Join(s, ";") + "]"
+}
+
+func c11Broker(b Broker) string {
+	return c11I(int64(b.ID)) + "," + c11S(b.Host) + "," + c11I(int64(b.Port)) + "," + c11S(b.Rack)
+}
+
+func c11BrokerIDs(l []Broker) string {
+	return c11L(len(l), func(i int) string { return c11I(int64(l[i].ID)) })
+}
+
+func c11ErrCode(err error) int64 {
+	if err == nil {
+		return 0
+	}
+	var ke Error
+	if errors.As(err, &ke) {
+		return int64(ke)
+	}
+	return -0x7fffffff // not a kafka.Error: cannot happen with makeError
+}
+
+// VerifC11Op runs one operation of the Conn with fixed canned request
+// arguments and renders the successful result.  ver only selects which fields
+// of a versioned response are rendered; off is the offset the Conn is seeked to
+// before a fetch.
+func VerifC11Op(c *Conn, name string, ver int, off int64) (summary string, err error) {
+	switch name {
+	case "produce":
+		_, partition, offset, appendTime, err := c.WriteCompressedMessagesAt(nil, Message{Value: []byte("v")})
+		if err != nil {
+			return "", err
+		}
+		ts := int64(0)
+		if !appendTime.IsZero() {
+			ts = appendTime.UnixNano() / 1e6
+		}
+		return "[" + c11I(int64(partition)) + ";" + c11I(offset) + ";" + c11I(ts) + "]", nil
+
+	case "fetch":
+		if _, err := c.Seek(off, SeekAbsolute|SeekDontCheck); err != nil {
+			return "", err
+		}
+		b := c.ReadBatchWith(ReadBatchConfig{MinBytes: 1, MaxBytes: 1 << 20})
+		if err := b.Close(); err != nil {
+			return "", err
+		}
+		return "[" + c11I(int64(b.Throttle()/time.Millisecond)) + ";" + c11I(b.HighWaterMark()) + "]", nil
+
+	case "fetchdrain":
+		// a fetch that reads every message of the batch before closing it; the
+		// summary (class of the read error that ended the loop, messages read) is
+		// returned in every case, the error is the one of Close
+		if _, err := c.Seek(off, SeekAbsolute|SeekDontCheck); err != nil {
+			return "-:[]", err
+		}
+		b := c.ReadBatchWith(ReadBatchConfig{MinBytes: 1, MaxBytes: 1 << 20})
+		var items []string
+		readClass := "cap"
+		for i := 0; i < 1000; i++ {
+			m, rerr := b.ReadMessage()
+			if rerr != nil {
+				readClass = VerifC11Classify(rerr)
+				break
+			}
+			items = append(items, c11I(m.Offset)+","+c11B(m.Key)+","+c11B(m.Value))
+		}
+		cerr := b.Close()
+		return readClass + ":[" + strings.Join(items, ";") + "]", cerr
+
+	case "listoffsets":
+		o, err := c.ReadFirstOffset()
+		if err != nil {
+			return "", err
+		}
+		return c11I(o), nil
+
+	case "metadata":
+		ps, err := c.ReadPartitions()
+		if err != nil {
+			return "", err
+		}
+		return c11L(len(ps), func(i int) string {
+			p := ps[i]
+			return c11S(p.Topic) + "," + c11I(int64(p.ID)) + "," + c11I(int64(p.Leader.ID)) + "," +
+				c11BrokerIDs(p.Replicas) + "," + c11BrokerIDs(p.Isr) + "," + c11BrokerIDs(p.OfflineReplicas) + "," +
+				c11I(c11ErrCode(p.Error))
+		}), nil
+
+	case "brokers":
+		bs, err := c.Brokers()
+		if err != nil {
+			return "", err
+		}
+		return c11L(len(bs), func(i int) string { return c11Broker(bs[i]) }), nil
+
+	case "controller":
+		b, err := c.Controller()
+		if err != nil {
+			return "", err
+		}
+		return c11Broker(b), nil
+
+	case "findcoordinator":
+		r, err := c.findCoordinator(findCoordinatorRequestV0{CoordinatorKey: "g"})
+		if err != nil {
+			return "", err
+		}
+		return c11I(int64(r.ErrorCode)) + "," + c11I(int64(r.Coordinator.NodeID)) + "," +
+			c11S(r.Coordinator.Host) + "," + c11I(int64(r.Coordinator.Port)), nil
+
+	case "joingroup":
+		r, err := c.joinGroup(joinGroupRequest{
+			GroupID:          "g",
+			SessionTimeout:   1000,
+			RebalanceTimeout: 1000,
+			ProtocolType:     "consumer",
+			GroupProtocols: []joinGroupRequestGroupProtocolV1{
+				{ProtocolName: "p", ProtocolMetadata: []byte("m")},
+			},
+		})
+		if err != nil {
+			return "", err
+		}
+		s := c11I(int64(r.ErrorCode)) + "," + c11I(int64(r.GenerationID)) + "," + c11S(r.GroupProtocol) + "," +
+			c11S(r.LeaderID) + "," + c11S(r.MemberID) + "," +
+			c11L(len(r.Members), func(i int) string {
+				return c11S(r.Members[i].MemberID) + "," + c11B(r.Members[i].MemberMetadata)
+			})
+		if ver >= 2 {
+			s = c11I(int64(r.ThrottleTime)) + "," + s
+		}
+		return s, nil
+
+	case "syncgroup":
+		r, err := c.syncGroup(syncGroupRequestV0{GroupID: "g", GenerationID: 1, MemberID: "m"})
+		if err != nil {
+			return "", err
+		}
+		return c11I(int64(r.ErrorCode)) + "," + c11B(r.MemberAssignments), nil
+
+	case "heartbeat":
+		r, err := c.heartbeat(heartbeatRequestV0{GroupID: "g", GenerationID: 1, MemberID: "m"})
+		if err != nil {
+			return "", err
+		}
+		return c11I(int64(r.ErrorCode)), nil
+
+	case "leavegroup":
+		r, err := c.leaveGroup(leaveGroupRequestV0{GroupID: "g", MemberID: "m"})
+		if err != nil {
+			return "", err
+		}
+		return c11I(int64(r.ErrorCode)), nil
+
+	case "offsetcommit":
+		r, err := c.offsetCommit(offsetCommitRequestV2{
+			GroupID:       "g",
+			GenerationID:  1,
+			MemberID:      "m",
+			RetentionTime: -1,
+			Topics: []offsetCommitRequestV2Topic{{
+				Topic:      "t",
+				Partitions: []offsetCommitRequestV2Partition{{Partition: 0, Offset: 1}},
+			}},
+		})
+		if err != nil {
+			return "", err
+		}
+		return c11L(len(r.Responses), func(i int) string {
+			t := r.Responses[i]
+			return c11S(t.Topic) + "," + c11L(len(t.PartitionResponses), func(j int) string {
+				p := t.PartitionResponses[j]
+				return c11I(int64(p.Partition)) + "," + c11I(int64(p.ErrorCode))
+			})
+		}), nil
+
+	case "offsetfetch":
+		r, err := c.offsetFetch(offsetFetchRequestV1{
+			GroupID: "g",
+			Topics:  []offsetFetchRequestV1Topic{{Topic: "t", Partitions: []int32{0}}},
+		})
+		if err != nil {
+			return "", err
+		}
+		return c11L(len(r.Responses), func(i int) string {
+			t := r.Responses[i]
+			return c11S(t.Topic) + "," + c11L(len(t.PartitionResponses), func(j int) string {
+				p := t.PartitionResponses[j]
+				return c11I(int64(p.Partition)) + "," + c11I(p.Offset) + "," + c11S(p.Metadata) + "," + c11I(int64(p.ErrorCode))
+			})
+		}), nil
+
+	case "listgroups":
+		r, err := c.listGroups(listGroupsRequestV1{})
+		if err != nil {
+			return "", err
+		}
+		return c11I(int64(r.ThrottleTimeMS)) + "," + c11I(int64(r.ErrorCode)) + "," +
+			c11L(len(r.Groups), func(i int) string {
+				return c11S(r.Groups[i].GroupID) + "," + c11S(r.Groups[i].ProtocolType)
+			}), nil
+
+	case "createtopics":
+		r, err := c.createTopics(createTopicsRequest{
+			Topics:  []createTopicsRequestV0Topic{{Topic: "x", NumPartitions: 1, ReplicationFactor: 1}},
+			Timeout: 1000,
+		})
+		if err != nil {
+			return "", err
+		}
+		s := c11L(len(r.TopicErrors), func(i int) string {
+			t := r.TopicErrors[i]
+			e := c11S(t.Topic) + "," + c11I(int64(t.ErrorCode))
+			if ver >= 1 {
+				e += "," + c11S(t.ErrorMessage)
+			}
+			return e
+		})
+		if ver >= 2 {
+			s = c11I(int64(r.ThrottleTime)) + "," + s
+		}
+		return s, nil
+
+	case "deletetopics":
+		r, err := c.deleteTopics(deleteTopicsRequest{Topics: []string{"x"}, Timeout: 1000})
+		if err != nil {
+			return "", err
+		}
+		s := c11L(len(r.TopicErrorCodes), func(i int) string {
+			return c11S(r.TopicErrorCodes[i].Topic) + "," + c11I(int64(r.TopicErrorCodes[i].ErrorCode))
+		})
+		if ver >= 1 {
+			s = c11I(int64(r.ThrottleTime)) + "," + s
+		}
+		return s, nil
+
+	case "apiversions":
+		r, err := c.ApiVersions()
+		if err != nil {
+			return "", err
+		}
+		return c11L(len(r), func(i int) string {
+			return c11I(int64(r[i].ApiKey)) + "," + c11I(int64(r[i].MinVersion)) + "," + c11I(int64(r[i].MaxVersion))
+		}), nil
+
+	case "saslhandshake":
+		if err := c.saslHandshake("PLAIN"); err != nil {
+			return "", err
+		}
+		return "-", nil
+
+	case "saslauthenticate":
+		data, err := c.saslAuthenticate([]byte("x"))
+		if err != nil {
+			return "", err
+		}
+		return c11B(data), nil
+	}
+	return "", fmt.Errorf("verif: unknown operation %q", name)
+}
